@@ -10,10 +10,10 @@ namespace KVerif.K
 open KVerif.L KVerif.Gen.Idle
 
 /-- conjuncts about components that are part of the kanata-level model; the others (zippychord,
-sequence mode, dynamic-macro replay, chords v2) belong to components every configuration of this
+dynamic-macro replay, chords v2) belong to components every configuration of this
 model leaves absent, where the real conjunct is constantly true -/
 def IdleTag.modelled : IdleTag → Bool
-  | .zippyIdle | .sequenceInactive | .dynMacroReplayNone | .chordsV2Idle => false
+  | .zippyIdle | .dynMacroReplayNone | .chordsV2Idle => false
   | _ => true
 
 /-- `pressed_keys_means_not_idle` -/
@@ -42,7 +42,8 @@ def evalIdleTag (k : KState) : IdleTag → Bool
         | .seqCustomPending _ | .seqCustomActive _ => true
         | .normalKey .. => pressedKeysMeansNotIdle k
         | _ => false)
-  | .zippyIdle | .sequenceInactive | .dynMacroReplayNone | .chordsV2Idle => true
+  | .sequenceInactive => !k.seq.st.active      -- [seq] `self.sequence_state.is_inactive()`
+  | .zippyIdle | .dynMacroReplayNone | .chordsV2Idle => true
 
 /-- what each conjunct of `can_block_update_idle_waiting` says about the model state -/
 def evalBlockTag (k : KState) : BlockTag → Bool
